@@ -80,6 +80,12 @@ PROPS = {
                   "fractional, out of range) in each single position, typical distinct values elsewhere; non-trivial = the case has inputs (tag nt:<src>-><dst>); distinct by hash",
              coverage_extra={"exhaustive_over": "12 x 12 scalar type pairs; every component position of every compound type"},
              trusted=["rustc monomorphisation at the 144 type pairs", "num_traits::NumCast (oracle)"]),
+    "C20": P(20, assumptions=["model (coq/Model/Serde.v) is hand-written: the serde data model of each derive / hand-written impl as a tree of named struct fields, newtypes and leaves; tied to /repo by the correspondence of this run through serde_json",
+              "the scalar's own Serialize/Deserialize and the data format (serde_json) are outside the model: a leaf is whatever the format does with one scalar; bit-for-bit float round trip through serde_json text is an executed predicate, not a theorem",
+              "the Decomposed visitor is modelled as a fold over the document's (key, value) entries; serde's derive(Deserialize) machinery for the other types is modelled by the structural inverse of the serialiser"],
+             rule="every serialisable type at f64 (typical and special floats: -0.0, subnormal, extremes); Decomposed documents: all 6 key orders, every omission, unknown key in every position, duplicated keys; non-trivial = all; distinct by hash",
+             coverage_extra={"exhaustive_over": "key orders / single omissions / unknown-key positions of Decomposed documents"},
+             trusted=["serde derive expansion and serde_json (the format)", "rustc"]),
     "C12": P(12, assumptions=["model (coq/Model/Point.v) is hand-written; tied to /repo by the exact-arithmetic correspondence of this run",
               "integer scalar types: only no-overflow inputs", "centroid of the empty list divides by cast(0): outside the property (non-empty lists)"],
              trusted=["rustc monomorphisation of the generic code at Xq and i32"]),
